@@ -4,6 +4,12 @@ import json, sys
 ALL = ["C%02d" % i for i in range(1, 21)]
 
 CHECKS = {
+ "C06": dict(
+   category="exploration",
+   text="Operation histories over the public CompositionGraph API on a tiny universe are run against a reference model written from the method docs: exhaustively for all sequences up to length 3 (quick) / 4 (thorough) over a 22-op alphabet from three start states, and randomly up to 60 ops with removal and re-creation. After every step the call's result class, every query (nodes, kinds, names, exports, imports(), arguments, alias sources, packages) and the guarded invariant hook are checked; every 4th step and at the end the graph must encode to a result class the model's state justifies and to bytes the reference validator accepts; clones are swapped in mid-history.",
+   note="Only live identifiers are passed. Readings taken for under-specified points: export of an already exported node adds a name, unexport removes all names, define_type of a defined type is TypeAlreadyDefined. The invariant hook (cfg wac_verif) is trusted to read the private fields faithfully.",
+   technique="property-based testing: stateful model-based testing (op sequences as vec(op) + interpreter, reference model, invariant hook), exhaustive short histories + proptest random long ones",
+   design="C06"),
  "C12": dict(
    category="exploration",
    text="Grammar-derived documents (own AST model, random layout) must parse to the derivation's tree; all single-token deletions/duplications/swaps and a fixed third of an 18-token substitution pool per position, raw insertions (forbidden code points, quotes, comment openers, separators, malformed versions) and ~140 hand-written near-miss forms are decided by a reference tokenizer+recogniser written from LANGUAGE.md; wac must agree on membership, on the tree when both accept, and locate its error inside the source when both reject.",
@@ -66,6 +72,6 @@ def main():
     json.dump(m, open("/verif/MANIFEST.json", "w"), indent=1)
     print("wrote MANIFEST.json with", len(checks), "checks;", len(na), "not_applicable")
 
-HOOK_COMMITS = []
+HOOK_COMMITS = ['882af37']
 if __name__ == "__main__":
     main()
